@@ -11,7 +11,7 @@ def c(f, app, side):
 
 class Crash(Exception): pass
 def t_crash():
-    d=tempfile.mkdtemp(dir="/root/scratch")
+    d=tempfile.mkdtemp()
     p=os.path.join(d,"c.sqlite"); u=os.path.join(d,"u.sqlite")
     srv,f=mk(p,u)
     a=c(f,"A","s1")
@@ -45,7 +45,7 @@ def t_usage():
 run("close with nameplate still claimed: usage", t_usage)
 
 def t_script():
-    d=tempfile.mkdtemp(dir="/root/scratch"); p=os.path.join(d,"x.sqlite")
+    d=tempfile.mkdtemp(); p=os.path.join(d,"x.sqlite")
     db=sqlite3.connect(p); print("autocommit attr", getattr(db,"autocommit",None), db.isolation_level)
     db.execute("create table t(a)"); db.execute("insert into t values (1)")
     print("in tx", db.in_transaction)
